@@ -541,12 +541,69 @@ type pstate struct {
 	counts map[string]*item // decoder: local holding a VarInt count (prim item still in the block, options collected here)
 	bools  map[string]*item // decoder: local holding a bool that was read (flag of an optional)
 	vars   map[string][]string // variable name -> path it denotes (loop variables, element temporaries)
+	types  map[string]typeRef  // static type of such variables (to find the methods called on them)
+	idx    map[string][]string // loop index variable -> path of the slice it indexes
 	depth  int
+}
+
+type typeRef struct {
+	pk   *pkgInfo
+	name string
+}
+
+// restore puts back the caller's name scope after a nested call
+func (s *pstate) restore(saved *pstate) {
+	if saved == nil {
+		return
+	}
+	c := saved.clone()
+	s.ints, s.flags, s.locals, s.counts, s.bools, s.vars, s.types, s.idx = c.ints, c.flags, c.locals, c.counts, c.bools, c.vars, c.types, c.idx
+}
+
+// enter starts a callee scope: only the bindings of its receiver survive
+func (s *pstate) enter(bind map[string][]string, types map[string]typeRef) {
+	s.ints, s.flags, s.locals, s.counts, s.bools = map[string]int64{}, map[string]*fx{}, map[string]*item{}, map[string]*item{}, map[string]*item{}
+	s.vars, s.types, s.idx = map[string][]string{}, map[string]typeRef{}, map[string][]string{}
+	for k, v := range bind {
+		s.vars[k] = v
+	}
+	for k, v := range types {
+		s.types[k] = v
+	}
+}
+
+// cloneItems copies the items of a block for one branch and re-points the path state at the copies
+func cloneItems(items []*item, st *pstate) []*item {
+	m := map[*item]*item{}
+	out := make([]*item, len(items))
+	for i, it := range items {
+		c := *it
+		if it.f != nil {
+			f := *it.f
+			c.f = &f
+		}
+		out[i] = &c
+		m[it] = &c
+	}
+	for _, mp := range []map[string]*item{st.locals, st.counts, st.bools} {
+		for k, v := range mp {
+			if n, ok := m[v]; ok {
+				mp[k] = n
+			}
+		}
+	}
+	return out
 }
 
 func (s *pstate) clone() *pstate {
 	c := &pstate{ints: map[string]int64{}, flags: map[string]*fx{}, locals: map[string]*item{}, counts: map[string]*item{},
-		bools: map[string]*item{}, vars: map[string][]string{}, depth: s.depth}
+		bools: map[string]*item{}, vars: map[string][]string{}, types: map[string]typeRef{}, idx: map[string][]string{}, depth: s.depth}
+	for k, v := range s.types {
+		c.types[k] = v
+	}
+	for k, v := range s.idx {
+		c.idx[k] = v
+	}
 	for k, v := range s.ints {
 		c.ints[k] = v
 	}
@@ -581,6 +638,10 @@ type walker struct {
 	notes *[]string
 	budget *int
 	prefix []string // path prefix when translating a nested value's method
+	rtype  typeRef  // static type of the receiver
+	call   *callInfo
+	depth  int
+	inLoop *loopInfo
 }
 
 func (wk *walker) bad(n ast.Node, format string, a ...any) error {
@@ -588,62 +649,133 @@ func (wk *walker) bad(n ast.Node, format string, a ...any) error {
 }
 
 type frame struct {
-	stmts []ast.Stmt
+	stmts    []ast.Stmt
+	wk       *walker
+	boundary bool    // the statements after a nested call: `return` inside the callee continues here
+	saved    *pstate // caller's name scope, restored when the callee is left
 }
+
+type action int
+
+const (
+	actNext   action = iota // go on with the next statement
+	actDone                 // the block is complete (an `if` absorbed the rest)
+	actReturn               // return from the current function
+	actCall                 // enter a nested method (wk.call describes it)
+)
+
+type callInfo struct {
+	wk     *walker
+	stmts  []ast.Stmt
+	isRet  bool // `return x.Encode(c, wr)`: leave the caller afterwards
+	bind   map[string][]string
+	types  map[string]typeRef
+}
+
+var retStmt = []ast.Stmt{&ast.ReturnStmt{}}
 
 // block translates stmts followed by the continuation frames.
 func (wk *walker) block(stmts []ast.Stmt, cont []frame, st *pstate) (*blk, error) {
+	return wk.blockFrom(nil, stmts, cont, st)
+}
+
+func (wk0 *walker) blockFrom(items []*item, stmts []ast.Stmt, cont []frame, st *pstate) (*blk, error) {
+	wk := wk0
 	*wk.budget--
 	if *wk.budget < 0 {
 		return nil, &opaque{reason: "too many version/optional branches (layout term would explode)"}
 	}
-	b := &blk{}
-	for i := 0; ; i++ {
+	b := &blk{items: items}
+	i := 0
+	for {
 		for i >= len(stmts) {
 			if len(cont) == 0 {
 				return b, nil
 			}
-			stmts, cont, i = cont[0].stmts, cont[1:], 0
+			f := cont[0]
+			if f.boundary {
+				st.restore(f.saved)
+			}
+			stmts, cont, i = f.stmts, cont[1:], 0
+			wk = f.wk
 		}
 		s := stmts[i]
 		rest := stmts[i+1:]
-		done, err := wk.stmt(s, rest, cont, st, b)
+		act, err := wk.stmt(s, rest, cont, st, b)
 		if err != nil {
 			return nil, err
 		}
-		if done {
+		switch act {
+		case actNext:
+			i++
+		case actDone:
 			return b, nil
+		case actReturn:
+			j := -1
+			for k, f := range cont {
+				if f.boundary {
+					j = k
+					break
+				}
+			}
+			if j < 0 {
+				return b, nil
+			}
+			f := cont[j]
+			st.restore(f.saved)
+			stmts, cont, i = f.stmts, cont[j+1:], 0
+			wk = f.wk
+		case actCall:
+			ci := wk.call
+			after := rest
+			if ci.isRet {
+				after = retStmt
+			}
+			cont = append([]frame{{stmts: after, wk: wk, boundary: true, saved: st.clone()}}, cont...)
+			st.enter(ci.bind, ci.types)
+			wk, stmts, i = ci.wk, ci.stmts, 0
 		}
 	}
 }
 
 // stmt handles one statement; done = the block is complete (return statement or an `if` that absorbed the rest).
-func (wk *walker) stmt(s ast.Stmt, rest []ast.Stmt, cont []frame, st *pstate, b *blk) (bool, error) {
+func (wk *walker) stmt(s ast.Stmt, rest []ast.Stmt, cont []frame, st *pstate, b *blk) (action, error) {
+	if ci, err := wk.nestedCall(s, st); err != nil {
+		return actNext, err
+	} else if ci != nil {
+		wk.call = ci
+		return actCall, nil
+	}
+	if syn, err := wk.componentIO(s, st); err != nil {
+		return actNext, err
+	} else if syn != nil {
+		return wk.ifStmt(syn, rest, cont, st, b)
+	}
 	switch s := s.(type) {
 	case *ast.EmptyStmt:
-		return false, nil
+		return actNext, nil
 	case *ast.ReturnStmt:
 		if len(s.Results) == 0 {
-			return true, nil
+			return actReturn, nil
 		}
 		if len(s.Results) != 1 {
-			return false, wk.bad(s, "return with %d results", len(s.Results))
+			return actNext, wk.bad(s, "return with %d results", len(s.Results))
 		}
 		r := s.Results[0]
 		if id, ok := r.(*ast.Ident); ok && (id.Name == "nil" || id.Name == "err") {
-			return true, nil
+			return actReturn, nil
 		}
 		if call, ok := r.(*ast.CallExpr); ok {
 			if err := wk.ioCall(call, nil, st, b, s); err != nil {
-				return false, err
+				return actNext, err
 			}
-			return true, nil
+			return actReturn, nil
 		}
-		return false, wk.bad(s, "return of %T", r)
+		return actNext, wk.bad(s, "return of %T", r)
 	case *ast.DeclStmt:
 		gd, ok := s.Decl.(*ast.GenDecl)
 		if !ok || (gd.Tok != token.VAR && gd.Tok != token.CONST) {
-			return false, wk.bad(s, "declaration")
+			return actNext, wk.bad(s, "declaration")
 		}
 		for _, sp := range gd.Specs {
 			vs := sp.(*ast.ValueSpec)
@@ -651,31 +783,31 @@ func (wk *walker) stmt(s ast.Stmt, rest []ast.Stmt, cont []frame, st *pstate, b 
 				continue // var x T
 			}
 			if len(vs.Values) != len(vs.Names) {
-				return false, wk.bad(s, "declaration with multi-value initialiser")
+				return actNext, wk.bad(s, "declaration with multi-value initialiser")
 			}
 			for i, nm := range vs.Names {
 				if err := wk.define(nm.Name, vs.Values[i], st, b, s); err != nil {
-					return false, err
+					return actNext, err
 				}
 			}
 		}
-		return false, nil
+		return actNext, nil
 	case *ast.ExprStmt:
 		call, ok := s.X.(*ast.CallExpr)
 		if !ok {
-			return false, wk.bad(s, "expression statement %T", s.X)
+			return actNext, wk.bad(s, "expression statement %T", s.X)
 		}
-		return false, wk.ioCall(call, nil, st, b, s)
+		return actNext, wk.ioCall(call, nil, st, b, s)
 	case *ast.AssignStmt:
-		return false, wk.assign(s, st, b)
+		return actNext, wk.assign(s, st, b)
 	case *ast.IfStmt:
 		return wk.ifStmt(s, rest, cont, st, b)
 	case *ast.BlockStmt:
-		return false, wk.bad(s, "nested block")
+		return actNext, wk.bad(s, "nested block")
 	case *ast.RangeStmt, *ast.ForStmt:
-		return false, wk.loop(s, st, b)
+		return actNext, wk.loop(s, st, b)
 	}
-	return false, wk.bad(s, "statement %T", s)
+	return actNext, wk.bad(s, "statement %T", s)
 }
 
 // define handles x := expr / var x = expr for non-I/O right-hand sides
@@ -1032,34 +1164,41 @@ func elseStmts(s *ast.IfStmt) []ast.Stmt {
 	return nil
 }
 
-func (wk *walker) ifStmt(s *ast.IfStmt, rest []ast.Stmt, cont []frame, st *pstate, b *blk) (bool, error) {
+func (wk *walker) ifStmt(s *ast.IfStmt, rest []ast.Stmt, cont []frame, st *pstate, b *blk) (action, error) {
 	if s.Init != nil {
 		// if x, err = util.ReadX(rd); err != nil { return err }   /   if err := util.WriteX(...); err != nil { return err }
 		if mentionsErr(s.Cond) && pureReturn(s.Body) && s.Else == nil {
-			_, err := wk.stmt(s.Init, nil, nil, st, b)
-			return false, err
+			act, err := wk.stmt(s.Init, rest, cont, st, b)
+			if act == actCall {
+				return actCall, err
+			}
+			return actNext, err
 		}
-		return false, wk.bad(s, "if with init statement")
+		return actNext, wk.bad(s, "if with init statement")
 	}
 	// 1. error handling
 	if mentionsErr(s.Cond) {
 		if pureReturn(s.Body) && s.Else == nil {
-			return false, nil
+			return actNext, nil
 		}
-		return false, wk.bad(s, "error handling with side effects")
+		return actNext, wk.bad(s, "error handling with side effects")
 	}
-	branch := func(g string, thenS, elseS []ast.Stmt, stA, stB *pstate) (bool, error) {
-		k := append([]frame{{rest}}, cont...)
-		a, err := wk.block(thenS, k, stA)
+	branch := func(g string, thenS, elseS []ast.Stmt, stA, stB *pstate) (action, error) {
+		k := append([]frame{{stmts: rest, wk: wk}}, cont...)
+		// a version test is invisible on the wire: the items already emitted in this block move into
+		// both branches (each path owns its items, so a later statement may still rename them)
+		pre := b.items
+		b.items = nil
+		a, err := wk.blockFrom(cloneItems(pre, stA), thenS, k, stA)
 		if err != nil {
-			return false, err
+			return actNext, err
 		}
-		c, err := wk.block(elseS, k, stB)
+		c, err := wk.blockFrom(cloneItems(pre, stB), elseS, k, stB)
 		if err != nil {
-			return false, err
+			return actNext, err
 		}
 		b.tail = &tail{kind: "ver", g: g, a: a, b: c}
-		return true, nil
+		return actDone, nil
 	}
 	// 2. version / direction test
 	if g, ok := wk.guard(s.Cond); ok {
@@ -1075,18 +1214,18 @@ func (wk *walker) ifStmt(s *ast.IfStmt, rest []ast.Stmt, cont []frame, st *pstat
 	// 3. decoder: checks on a count that was just read
 	if wk.side == decSide && s.Else == nil && pureReturn(s.Body) {
 		if ok, err := wk.countCheck(s.Cond, st); ok || err != nil {
-			return false, err
+			return actNext, err
 		}
 	}
 	// 4. validation of field values (encoder refuses / decoder rejects): restricts the domain, writes nothing
 	if s.Else == nil && returnsError(s.Body) {
 		if _, err := wk.pred(s.Cond, st); err == nil {
 			*wk.notes = append(*wk.notes, "validation "+wk.pk.where(s.Pos()))
-			return false, nil
+			return actNext, nil
 		}
 		if wk.isFieldCompare(s.Cond, st) {
 			*wk.notes = append(*wk.notes, "validation "+wk.pk.where(s.Pos()))
-			return false, nil
+			return actNext, nil
 		}
 	}
 	// 5. optional guarded by a bool that was just written / read
@@ -1095,14 +1234,14 @@ func (wk *walker) ifStmt(s *ast.IfStmt, rest []ast.Stmt, cont []frame, st *pstat
 	if wk.side == encSide {
 		f, err := wk.pred(s.Cond, st)
 		if err != nil {
-			return false, wk.bad(s, "if condition outside the fragment")
+			return actNext, wk.bad(s, "if condition outside the fragment")
 		}
 		if len(b.items) == 0 {
-			return false, wk.bad(s, "data-dependent if not preceded by a bool write")
+			return actNext, wk.bad(s, "data-dependent if not preceded by a bool write")
 		}
 		flagItem = b.items[len(b.items)-1]
 		if flagItem.kind != "prim" || flagItem.prim != "PBool" {
-			return false, wk.bad(s, "data-dependent if not preceded by a bool write")
+			return actNext, wk.bad(s, "data-dependent if not preceded by a bool write")
 		}
 		switch {
 		case flagItem.f.equal(f):
@@ -1111,32 +1250,32 @@ func (wk *walker) ifStmt(s *ast.IfStmt, rest []ast.Stmt, cont []frame, st *pstat
 			flag = flagItem.f
 			// condition is the negation of what was written: swap branches below
 			b.items = b.items[:len(b.items)-1]
-			k := append([]frame{{rest}}, cont...)
+			k := append([]frame{{stmts: rest, wk: wk}}, cont...)
 			a, err := wk.block(elseStmts(s), k, st.clone())
 			if err != nil {
-				return false, err
+				return actNext, err
 			}
 			c, err := wk.block(s.Body.List, k, st.clone())
 			if err != nil {
-				return false, err
+				return actNext, err
 			}
 			b.tail = &tail{kind: "opt", f: flag, a: a, b: c}
-			return true, nil
+			return actDone, nil
 		default:
-			return false, wk.bad(s, "if condition differs from the bool written before it")
+			return actNext, wk.bad(s, "if condition differs from the bool written before it")
 		}
 		b.items = b.items[:len(b.items)-1]
-		k := append([]frame{{rest}}, cont...)
+		k := append([]frame{{stmts: rest, wk: wk}}, cont...)
 		a, err := wk.block(s.Body.List, k, st.clone())
 		if err != nil {
-			return false, err
+			return actNext, err
 		}
 		c, err := wk.block(elseStmts(s), k, st.clone())
 		if err != nil {
-			return false, err
+			return actNext, err
 		}
 		b.tail = &tail{kind: "opt", f: flag, a: a, b: c}
-		return true, nil
+		return actDone, nil
 	}
 	// decoder
 	cond := s.Cond
@@ -1157,12 +1296,12 @@ func (wk *walker) ifStmt(s *ast.IfStmt, rest []ast.Stmt, cont []frame, st *pstat
 	case *ast.Ident:
 		flagItem = st.bools[c.Name]
 		if flagItem == nil {
-			return false, wk.bad(s, "if on %s which is not a bool read from the wire", c.Name)
+			return actNext, wk.bad(s, "if on %s which is not a bool read from the wire", c.Name)
 		}
 	case *ast.SelectorExpr:
 		p, ok := wk.fieldPath(c, st)
 		if !ok {
-			return false, wk.bad(s, "if condition outside the fragment")
+			return actNext, wk.bad(s, "if condition outside the fragment")
 		}
 		if len(b.items) > 0 {
 			last := b.items[len(b.items)-1]
@@ -1171,29 +1310,29 @@ func (wk *walker) ifStmt(s *ast.IfStmt, rest []ast.Stmt, cont []frame, st *pstat
 			}
 		}
 		if flagItem == nil {
-			return false, wk.bad(s, "if on a field that was not just read as a bool")
+			return actNext, wk.bad(s, "if on a field that was not just read as a bool")
 		}
 	case *ast.CallExpr:
 		// if r.Ok() { / if util.PReadBoolVal(rd) {
 		if !wk.isIOCall(c) {
-			return false, wk.bad(s, "if condition outside the fragment")
+			return actNext, wk.bad(s, "if condition outside the fragment")
 		}
 		tmp := &ast.Ident{Name: fmt.Sprintf("$cond%d", s.Pos()), NamePos: c.Pos()}
 		if err := wk.ioCall(c, []ast.Expr{tmp}, st, b, s); err != nil {
-			return false, err
+			return actNext, err
 		}
 		flagItem = st.bools[tmp.Name]
 		if flagItem == nil {
-			return false, wk.bad(s, "if on a call that does not read a bool")
+			return actNext, wk.bad(s, "if on a call that does not read a bool")
 		}
 	default:
-		return false, wk.bad(s, "if condition outside the fragment")
+		return actNext, wk.bad(s, "if condition outside the fragment")
 	}
 	if len(b.items) == 0 || b.items[len(b.items)-1] != flagItem {
-		return false, wk.bad(s, "bool guarding the optional was not the last value read")
+		return actNext, wk.bad(s, "bool guarding the optional was not the last value read")
 	}
 	b.items = b.items[:len(b.items)-1]
-	k := append([]frame{{rest}}, cont...)
+	k := append([]frame{{stmts: rest, wk: wk}}, cont...)
 	thenS, elseS := s.Body.List, elseStmts(s)
 	if negated {
 		thenS, elseS = elseS, thenS
@@ -1201,11 +1340,11 @@ func (wk *walker) ifStmt(s *ast.IfStmt, rest []ast.Stmt, cont []frame, st *pstat
 	// thenS runs when the wire bool is true
 	a, err := wk.block(thenS, k, st.clone())
 	if err != nil {
-		return false, err
+		return actNext, err
 	}
 	cblk, err := wk.block(elseS, k, st.clone())
 	if err != nil {
-		return false, err
+		return actNext, err
 	}
 	flag = flagItem.f
 	if flag.kind == "local" || flag.kind == "anon" {
@@ -1217,11 +1356,11 @@ func (wk *walker) ifStmt(s *ast.IfStmt, rest []ast.Stmt, cont []frame, st *pstat
 		case fa == nil && fb != nil:
 			flag = negFx(&fx{kind: "has", path: fb})
 		default:
-			return false, wk.bad(s, "cannot tell which field the bool read here announces")
+			return actNext, wk.bad(s, "cannot tell which field the bool read here announces")
 		}
 	}
 	b.tail = &tail{kind: "opt", f: flag, a: a, b: cblk}
-	return true, nil
+	return actDone, nil
 }
 
 func samePath(a, b []string) bool { return strings.Join(a, "\x00") == strings.Join(b, "\x00") }
@@ -1933,27 +2072,413 @@ func applyConv(it *item) {
 	}
 }
 
-// loops and nested Encode/Decode calls: second stage of the fragment
+// ---------- static types (just enough to find the method a nested call refers to) ----------
+
+func lxRecvTypeName(fd *ast.FuncDecl) string {
+	if fd.Recv == nil || len(fd.Recv.List) != 1 {
+		return ""
+	}
+	t := fd.Recv.List[0].Type
+	if st, ok := t.(*ast.StarExpr); ok {
+		t = st.X
+	}
+	if id, ok := t.(*ast.Ident); ok {
+		return id.Name
+	}
+	return ""
+}
+
+// resolveType turns a type expression of a file of pk into a named struct type of the module (elements of slices, pointees)
+func (w *world) resolveType(pk *pkgInfo, file *ast.File, e ast.Expr) (typeRef, bool) {
+	switch t := e.(type) {
+	case *ast.StarExpr:
+		return w.resolveType(pk, file, t.X)
+	case *ast.ArrayType:
+		return w.resolveType(pk, file, t.Elt)
+	case *ast.Ident:
+		if _, ok := pk.structs[t.Name]; ok {
+			return typeRef{pk, t.Name}, true
+		}
+	case *ast.SelectorExpr:
+		x, ok := t.X.(*ast.Ident)
+		if !ok || file == nil {
+			return typeRef{}, false
+		}
+		ipath, ok := pk.imports[file][x.Name]
+		const mod = "go.minekube.com/gate/"
+		if !ok || !strings.HasPrefix(ipath, mod) {
+			return typeRef{}, false
+		}
+		q, err := w.loadPkg(filepath.Join(w.repo, strings.TrimPrefix(ipath, mod)))
+		if err != nil {
+			return typeRef{}, false
+		}
+		if _, ok := q.structs[t.Sel.Name]; ok {
+			return typeRef{q, t.Sel.Name}, true
+		}
+	}
+	return typeRef{}, false
+}
+
+func (w *world) fieldType(t typeRef, field string) (typeRef, bool) {
+	st := t.pk.structs[t.name]
+	if st == nil {
+		return typeRef{}, false
+	}
+	var file *ast.File
+	for _, f := range t.pk.files {
+		if f.Pos() <= st.Pos() && st.Pos() <= f.End() {
+			file = f
+		}
+	}
+	for _, f := range st.Fields.List {
+		for _, n := range f.Names {
+			if n.Name == field {
+				return w.resolveType(t.pk, file, f.Type)
+			}
+		}
+	}
+	return typeRef{}, false
+}
+
+// typeOfExpr: static type of p.F.G / loop variable / element temporary
+func (wk *walker) typeOfExpr(e ast.Expr, st *pstate) (typeRef, bool) {
+	switch e := e.(type) {
+	case *ast.ParenExpr:
+		return wk.typeOfExpr(e.X, st)
+	case *ast.StarExpr:
+		return wk.typeOfExpr(e.X, st)
+	case *ast.UnaryExpr:
+		if e.Op == token.AND {
+			return wk.typeOfExpr(e.X, st)
+		}
+	case *ast.Ident:
+		if t, ok := st.types[e.Name]; ok {
+			return t, true
+		}
+		if e.Name == wk.recv && wk.recv != "" {
+			return wk.rtype, wk.rtype.name != ""
+		}
+	case *ast.SelectorExpr:
+		t, ok := wk.typeOfExpr(e.X, st)
+		if !ok {
+			return typeRef{}, false
+		}
+		return wk.w.fieldType(t, e.Sel.Name)
+	case *ast.IndexExpr:
+		return wk.typeOfExpr(e.X, st) // element type: resolveType already stripped the slice
+	}
+	return typeRef{}, false
+}
+
+// ---------- nested method calls: x.Encode(c, wr), pack.Write(wr), j.encode116Up(c, wr) ----------
+
+// nestedCall recognises the statement shapes that only consist of a call of a method of a module type on a
+// receiver-rooted expression:  x.M(..)  |  err = x.M(..)  |  err := x.M(..)  |  return x.M(..)
+func (wk *walker) nestedCall(s ast.Stmt, st *pstate) (*callInfo, error) {
+	var call *ast.CallExpr
+	isRet := false
+	switch s := s.(type) {
+	case *ast.ExprStmt:
+		call, _ = s.X.(*ast.CallExpr)
+	case *ast.AssignStmt:
+		if len(s.Lhs) == 1 && len(s.Rhs) == 1 {
+			if id, ok := s.Lhs[0].(*ast.Ident); ok && id.Name == "err" {
+				call, _ = s.Rhs[0].(*ast.CallExpr)
+			}
+		}
+	case *ast.ReturnStmt:
+		if len(s.Results) == 1 {
+			call, _ = s.Results[0].(*ast.CallExpr)
+			isRet = true
+		}
+	}
+	if call == nil {
+		return nil, nil
+	}
+	sel, ok := call.Fun.(*ast.SelectorExpr)
+	if !ok {
+		return nil, nil
+	}
+	if x, ok := sel.X.(*ast.Ident); ok && (x.Name == wk.util || wk.pw[x.Name] || x.Name == wk.io || x.Name == "io" || x.Name == "fmt" || x.Name == "errors") {
+		return nil, nil
+	}
+	path, ok := wk.fieldPath(sel.X, st)
+	if !ok {
+		return nil, nil
+	}
+	t, ok := wk.typeOfExpr(sel.X, st)
+	if !ok {
+		return nil, nil // not a module struct type (component holders etc. are handled elsewhere)
+	}
+	fd := t.pk.methods[t.name][sel.Sel.Name]
+	if fd == nil || fd.Body == nil {
+		return nil, nil
+	}
+	if wk.depth > 6 {
+		return nil, wk.bad(s, "nested calls too deep")
+	}
+	for _, it := range st.locals {
+		if it.f != nil && it.f.kind == "local" {
+			return nil, wk.bad(s, "value read into a local is still pending at a nested call")
+		}
+	}
+	file := t.pk.fileOf(fd)
+	cw := &walker{w: wk.w, pk: t.pk, file: file, side: wk.side, pw: map[string]bool{}, notes: wk.notes, budget: wk.budget,
+		prefix: path, rtype: t, depth: wk.depth + 1, util: "\x00none"}
+	for alias, ip := range t.pk.imports[file] {
+		if strings.HasSuffix(ip, "/proto/util") {
+			cw.util = alias
+		}
+	}
+	if len(fd.Recv.List[0].Names) == 1 {
+		cw.recv = fd.Recv.List[0].Names[0].Name
+	}
+	// bind parameters by type: *proto.PacketContext -> ctx, io.Writer / io.Reader -> io
+	var params []*ast.Field
+	for _, f := range fd.Type.Params.List {
+		n := len(f.Names)
+		if n == 0 {
+			n = 1
+		}
+		for i := 0; i < n; i++ {
+			g := *f
+			if len(f.Names) > 0 {
+				g.Names = []*ast.Ident{f.Names[i]}
+			}
+			params = append(params, &g)
+		}
+	}
+	if len(params) != len(call.Args) {
+		return nil, wk.bad(s, "nested call with variadic or mismatching arguments")
+	}
+	for i, f := range params {
+		name := ""
+		if len(f.Names) == 1 && f.Names[0].Name != "_" {
+			name = f.Names[0].Name
+		}
+		ts := lxExprString(f.Type)
+		arg, _ := call.Args[i].(*ast.Ident)
+		switch ts {
+		case "*proto.PacketContext":
+			if arg == nil || arg.Name != wk.ctx {
+				return nil, wk.bad(s, "nested call with a packet context that is not the caller's")
+			}
+			cw.ctx = name
+		case "io.Writer", "io.Reader":
+			if arg == nil || arg.Name != wk.io {
+				return nil, wk.bad(s, "nested call on a different stream")
+			}
+			cw.io = name
+		default:
+			return nil, wk.bad(s, "nested call with a parameter of type %s", ts)
+		}
+	}
+	if cw.recv == "" {
+		cw.recv = "\x00recv"
+	}
+	return &callInfo{wk: cw, stmts: fd.Body.List, isRet: isRet}, nil
+}
+
+// componentIO: third stage (component holders as wire blobs) - not enabled yet
+func (wk *walker) componentIO(s ast.Stmt, st *pstate) (*ast.IfStmt, error) { return nil, nil }
+
+// ---------- loops ----------
+
+func substPrefix(b *blk, from, to []string) {
+	sub := func(f *fx) {
+		for f != nil {
+			if len(f.path) >= len(from) && samePath(f.path[:len(from)], from) {
+				f.path = append(append([]string{}, to...), f.path[len(from):]...)
+			}
+			f = f.sub
+		}
+	}
+	for _, it := range b.items {
+		sub(it.f)
+		if it.body != nil {
+			substPrefix(it.body, from, to)
+		}
+	}
+	if b.tail != nil {
+		sub(b.tail.f)
+		if b.tail.a != nil {
+			substPrefix(b.tail.a, from, to)
+			substPrefix(b.tail.b, from, to)
+		}
+	}
+}
+
 func (wk *walker) loop(s ast.Stmt, st *pstate, b *blk) error {
-	return wk.bad(s, "loop")
+	var body *ast.BlockStmt
+	inner := st.clone()
+	var countItem *item
+	var slicePath []string
+	switch l := s.(type) {
+	case *ast.RangeStmt:
+		body = l.Body
+		p, ok := wk.fieldPath(l.X, st)
+		if !ok || len(p) == 0 {
+			return wk.bad(s, "range over something that is not a field")
+		}
+		slicePath = p
+		et, hasT := wk.typeOfExpr(l.X, st)
+		key, _ := l.Key.(*ast.Ident)
+		val, _ := l.Value.(*ast.Ident)
+		switch {
+		case l.Value != nil && key != nil && key.Name == "_" && val != nil:
+			inner.vars[val.Name] = append(append([]string{}, p...), "#")
+			if hasT {
+				inner.types[val.Name] = et
+			}
+		case l.Value == nil && key != nil && key.Name != "_":
+			inner.idx[key.Name] = p
+		default:
+			return wk.bad(s, "range with key and value (map iteration order is not a wire order)")
+		}
+		if wk.side == encSide {
+			if len(b.items) == 0 || b.items[len(b.items)-1].kind != "count" || !samePath(b.items[len(b.items)-1].f.path, p) {
+				return wk.bad(s, "range loop not preceded by WriteVarInt(len(field))")
+			}
+			countItem = b.items[len(b.items)-1]
+			countItem.opts = repOpts{cap: "None"}
+		} else {
+			// for i := range p.F  after  p.F = make([]T, n)
+			for _, it := range b.items {
+				if it.kind == "prim" && it.prim == "PVarInt" && it.f != nil && it.f.kind == "madeslice" && samePath(it.f.path, p) {
+					countItem = it
+				}
+			}
+			if countItem == nil || b.items[len(b.items)-1] != countItem {
+				return wk.bad(s, "range loop over a slice whose length was not just read")
+			}
+		}
+	case *ast.ForStmt:
+		body = l.Body
+		if wk.side == encSide {
+			return wk.bad(s, "counting loop in an encoder")
+		}
+		// for i := 0; i < n; i++
+		init, ok1 := l.Init.(*ast.AssignStmt)
+		cond, ok2 := l.Cond.(*ast.BinaryExpr)
+		_, ok3 := l.Post.(*ast.IncDecStmt)
+		if !ok1 || !ok2 || !ok3 || cond.Op != token.LSS || len(init.Lhs) != 1 {
+			return wk.bad(s, "loop that is not `for i := 0; i < n; i++`")
+		}
+		iv, _ := init.Lhs[0].(*ast.Ident)
+		n, _ := cond.Y.(*ast.Ident)
+		if iv == nil || n == nil {
+			return wk.bad(s, "loop bound is not a local")
+		}
+		countItem = st.counts[n.Name]
+		if countItem == nil || len(b.items) == 0 || b.items[len(b.items)-1] != countItem {
+			return wk.bad(s, "loop bound %s is not the count that was just read", n.Name)
+		}
+		if countItem.f != nil && countItem.f.kind == "madeslice" {
+			inner.idx[iv.Name] = countItem.f.path
+			slicePath = countItem.f.path
+		} else {
+			inner.idx[iv.Name] = []string{"$idx:" + iv.Name}
+		}
+		delete(st.counts, n.Name)
+		delete(st.locals, n.Name)
+	default:
+		return wk.bad(s, "loop")
+	}
+	inner.locals, inner.counts, inner.bools = map[string]*item{}, map[string]*item{}, map[string]*item{}
+	inner.depth++
+	lw := *wk
+	lw.inLoop = &loopInfo{path: slicePath}
+	bb, err := lw.block(body.List, nil, inner)
+	if err != nil {
+		return err
+	}
+	if slicePath == nil {
+		slicePath = lw.inLoop.path
+	}
+	if slicePath == nil {
+		return wk.bad(s, "cannot tell which field the loop fills")
+	}
+	// element temporaries and locals become the current element of the slice
+	for _, tmp := range lw.inLoop.temps {
+		substPrefix(bb, []string{tmp}, append(append([]string{}, slicePath...), "#"))
+	}
+	substPrefix(bb, []string{"$idx"}, slicePath)
+	b.items = b.items[:len(b.items)-1]
+	opts := countItem.opts
+	if opts.cap == "" {
+		opts.cap = "None"
+	}
+	b.items = append(b.items, &item{kind: "rep", f: &fx{kind: "path", path: slicePath}, opts: opts, body: bb, pos: s.Pos()})
+	return nil
 }
 
-func (wk *walker) nested(call *ast.CallExpr, sel *ast.SelectorExpr, st *pstate, b *blk, at ast.Node) error {
-	return wk.bad(at, "call %s", exprString(call.Fun))
+type loopInfo struct {
+	path  []string // the slice field the loop fills (decoder: learnt from append / index assignment)
+	temps []string // placeholder roots of element temporaries
 }
 
-func exprString(e ast.Expr) string {
+// makeCall: x = make([]T, n) / make([]T, 0, min(n, K)) / make(map..., n): options of the count n
+func (wk *walker) makeCall(lhs ast.Expr, call *ast.CallExpr, st *pstate) (bool, error) {
+	id, ok := call.Fun.(*ast.Ident)
+	if !ok || id.Name != "make" || len(call.Args) < 2 {
+		return false, nil
+	}
+	arg := call.Args[len(call.Args)-1]
+	pre := int64(-1) // exact
+	var n *ast.Ident
+	switch a := arg.(type) {
+	case *ast.Ident:
+		n = a
+	case *ast.CallExpr:
+		if f, ok := a.Fun.(*ast.Ident); ok && f.Name == "min" && len(a.Args) == 2 {
+			n, _ = a.Args[0].(*ast.Ident)
+			k, err := wk.constInt(a.Args[1], st)
+			if err != nil {
+				return false, nil
+			}
+			pre = k
+		}
+	}
+	if n == nil {
+		return false, nil
+	}
+	it := st.counts[n.Name]
+	if it == nil {
+		return false, nil
+	}
+	_, isMap := call.Args[0].(*ast.MapType)
+	if !isMap {
+		it.opts.neg = true // makeslice panics on a negative length / capacity; RecoverFunc turns it into an error
+		if pre >= 0 {
+			it.opts.pre = pre
+		} else if len(call.Args) == 2 {
+			it.opts.pre = 1 << 31 // make([]T, n): n elements up front (bounded by the explicit cap check, if any)
+		}
+	}
+	if len(call.Args) == 2 && !isMap {
+		// p.F = make([]T, n): the slice exists before the loop; remember which field so that `for i := range p.F` finds it
+		if p, ok := wk.fieldPath(lhs, st); ok && len(p) > 0 {
+			it.f = &fx{kind: "madeslice", path: p}
+		} else if lid, ok := lhs.(*ast.Ident); ok {
+			it.f = &fx{kind: "madeslice", path: []string{"$slice:" + lid.Name}}
+		}
+	}
+	return true, nil
+}
+
+func lxExprString(e ast.Expr) string {
 	switch e := e.(type) {
 	case *ast.Ident:
 		return e.Name
 	case *ast.SelectorExpr:
-		return exprString(e.X) + "." + e.Sel.Name
+		return lxExprString(e.X) + "." + e.Sel.Name
 	case *ast.CallExpr:
-		return exprString(e.Fun) + "(..)"
+		return lxExprString(e.Fun) + "(..)"
 	case *ast.StarExpr:
-		return "*" + exprString(e.X)
+		return "*" + lxExprString(e.X)
 	case *ast.IndexExpr:
-		return exprString(e.X) + "[..]"
+		return lxExprString(e.X) + "[..]"
 	}
 	return fmt.Sprintf("%T", e)
 }
@@ -2038,12 +2563,54 @@ func (w *world) translateType(r *registration) *result {
 			res.dec = b
 		}
 	}
+	pairConsts(res.enc, res.dec)
 	return res
+}
+
+// pairConsts: a constant the encoder writes is read and dropped by the decoder; the decoder's layout
+// gets the encoder's constant (i-th constant statement of Encode with the i-th dropped read of Decode,
+// in source order). A mismatch in number leaves the decoder's placeholder and fails the C04 obligation.
+func pairConsts(enc, dec *blk) {
+	collect := func(b *blk) (order []token.Pos, byPos map[token.Pos][]*item) {
+		byPos = map[token.Pos][]*item{}
+		var walk func(b *blk)
+		walk = func(b *blk) {
+			for _, it := range b.items {
+				if it.kind == "const" {
+					if _, ok := byPos[it.pos]; !ok {
+						order = append(order, it.pos)
+					}
+					byPos[it.pos] = append(byPos[it.pos], it)
+				}
+				if it.body != nil {
+					walk(it.body)
+				}
+			}
+			if b.tail != nil && b.tail.a != nil {
+				walk(b.tail.a)
+				walk(b.tail.b)
+			}
+		}
+		walk(b)
+		sort.Slice(order, func(i, j int) bool { return order[i] < order[j] })
+		return
+	}
+	eo, em := collect(enc)
+	do, dm := collect(dec)
+	if len(eo) != len(do) {
+		return
+	}
+	for i := range eo {
+		k := em[eo[i]][0].konst
+		for _, it := range dm[do[i]] {
+			it.konst = k
+		}
+	}
 }
 
 func (w *world) translateMethod(pk *pkgInfo, fd *ast.FuncDecl, sd side, prefix []string, notes *[]string) (*blk, error) {
 	file := pk.fileOf(fd)
-	wk := &walker{w: w, pk: pk, file: file, side: sd, pw: map[string]bool{}, notes: notes, prefix: prefix}
+	wk := &walker{w: w, pk: pk, file: file, side: sd, pw: map[string]bool{}, notes: notes, prefix: prefix, rtype: typeRef{pk, lxRecvTypeName(fd)}}
 	budget := 4000
 	wk.budget = &budget
 	for alias, path := range pk.imports[file] {
@@ -2079,7 +2646,7 @@ func (w *world) translateMethod(pk *pkgInfo, fd *ast.FuncDecl, sd side, prefix [
 		return nil, &opaque{reason: "no body"}
 	}
 	st := &pstate{ints: map[string]int64{}, flags: map[string]*fx{}, locals: map[string]*item{}, counts: map[string]*item{},
-		bools: map[string]*item{}, vars: map[string][]string{}}
+		bools: map[string]*item{}, vars: map[string][]string{}, types: map[string]typeRef{}, idx: map[string][]string{}}
 	b, err := wk.block(fd.Body.List, nil, st)
 	if err != nil {
 		return nil, err
@@ -2087,7 +2654,7 @@ func (w *world) translateMethod(pk *pkgInfo, fd *ast.FuncDecl, sd side, prefix [
 	if err := wk.finishAll(b); err != nil {
 		return nil, err
 	}
-	if b.size() > 1500 {
+	if b.size() > 6000 {
 		return nil, &opaque{reason: "layout term too large"}
 	}
 	return b, nil
@@ -2115,7 +2682,11 @@ func translateLayouts(repo, out string) error {
 	sb.WriteString("From Coq Require Import List ZArith NArith String Bool.\n")
 	sb.WriteString("From Verif Require Import Base.Hex Model.Layout Model.LayoutPrims.\n")
 	sb.WriteString("Import ListNotations.\nOpen Scope string_scope.\nOpen Scope Z_scope.\n\n")
-	sb.WriteString("Definition L := layout LP.\n\n")
+	sb.WriteString("Definition L := layout LP.\n")
+	for _, c := range []string{"LEnd", "LPrim", "LSeq", "LVer", "LOpt", "LRep", "LRest", "LConst"} {
+		sb.WriteString("Local Notation " + c + " := (@Layout." + c + " LP).\n")
+	}
+	sb.WriteString("\n")
 	sb.WriteString("(* supported protocol versions (version.Versions without Unknown / Legacy) *)\n")
 	vs := make([]string, len(w.ordered))
 	for i, v := range w.ordered {
